@@ -1,13 +1,15 @@
 package main
 
 import (
+	"context"
 	"fmt"
 	"os"
 
+	"github.com/sdcio/cache/proto/cachepb"
+	"github.com/sdcio/data-server/pkg/cache"
 	dconfig "github.com/sdcio/data-server/pkg/config"
-	cachepb "github.com/sdcio/cache/proto/cachepb"
-	"verif/harness/h"
 	log "github.com/sirupsen/logrus"
+	"verif/harness/h"
 )
 
 // ad-hoc experiments go here
@@ -22,31 +24,26 @@ func main() {
 	if err != nil {
 		panic(err)
 	}
-	w, err := h.NewWorld(u, cc, nil, h.WorldOpts{Fragments: h.ValidityFragments(), Validation: &dconfig.Validation{}})
+	fr := h.ValidityFragments()
+	e := func(n string) h.PE { return h.PE{Name: "if", Keys: [][2]string{{"name", n}}} }
+	L := func(v string, p ...h.PE) h.Leaf { return h.Leaf{P: h.Path(p), V: v} }
+	fr["i3"] = &h.Fragment{Name: "i3", Leaves: []h.Leaf{L("one", e("e1"), h.PE{Name: "descr"}), L("two", e("e2"), h.PE{Name: "descr"}), L("three", e("e3"), h.PE{Name: "descr"})}}
+	fr["i1"] = &h.Fragment{Name: "i1", Leaves: []h.Leaf{L("one", e("e1"), h.PE{Name: "descr"}), L("e1", h.PE{Name: "refs"}, h.PE{Name: "uplink"})}}
+	w, err := h.NewWorld(u, cc, nil, h.WorldOpts{Fragments: fr, Validation: &dconfig.Validation{}})
 	if err != nil {
 		panic(err)
 	}
+	log.SetLevel(log.ErrorLevel)
 	I := func(o string, p int32, f string) h.IntentSpec { return h.IntentSpec{Owner: o, Prio: p, Frag: f} }
-	ops := []h.Op{
-		{Intents: []h.IntentSpec{I("B", 20, "vh1")}},
-		{Intents: []h.IntentSpec{I("C", 30, "vm5")}},
-		{Intents: []h.IntentSpec{{Owner: "B", Prio: 20, Delete: true}}},
-		{Intents: []h.IntentSpec{I("A", 10, "vg"), I("B", 20, "vh1")}},
-	}
+	out := w.Apply(h.Op{Intents: []h.IntentSpec{I("A", 10, "i3")}})
+	fmt.Println("setup rejected:", out.Rejected(), out.Err)
 	if len(os.Args) > 1 {
-		ops = append(ops[:2], ops[3])
+		err = w.Raw.Modify(context.Background(), w.Name, &cache.Opts{Store: cachepb.Store_CONFIG}, [][]string{{"if", "e2"}, {"if", "e3"}}, nil)
+		fmt.Println("drop:", err)
 	}
-	for i, op := range ops {
-		if i == 2 {
-			log.SetLevel(log.DebugLevel)
-		} else {
-			log.SetLevel(log.ErrorLevel)
-		}
-		out := w.Apply(op)
-		fmt.Println(op, "rejected:", out.Rejected(), out.Err, out.Rsp)
-		r, _ := w.ReadStore(cachepb.Store_CONFIG)
-		fmt.Println("  running:", r)
-		in, _ := w.ReadIntended()
-		fmt.Println("  intended:", in)
-	}
+	out = w.Apply(h.Op{Intents: []h.IntentSpec{I("A", 10, "i1")}})
+	fmt.Println("test rejected:", out.Rejected(), out.Err, out.Rsp)
+	r, _ := w.ReadStore(cachepb.Store_CONFIG)
+	fmt.Println("  running:", r)
+	fmt.Println("  device:", w.Dev.Snapshot())
 }
